@@ -56,6 +56,40 @@ def main_match(body, enum_path):
     return max(ms, key=lambda m: len(m["arms"]))
 
 
+def unit_bodies(db, root_hir, depth=2):
+    """The function and the private functions of the same source file it calls (transitively, bounded): a phase of a long
+    function that was factored out into a private helper is still part of the unit the rule looks at."""
+    from db import callee as _callee
+    out = [root_hir]
+    seen = {root_hir.get("def")}
+    frontier = [(root_hir, 0)]
+    while frontier:
+        b, d = frontier.pop()
+        if d >= depth:
+            continue
+        for n in walk(b["body"]):
+            c = _callee(n) or ""
+            if c in seen or c not in db.hir:
+                continue
+            h = db.hir[c]
+            if h.get("file") != root_hir.get("file") or h.get("vis") == "Public" or h.get("dk") not in ("Fn", "AssocFn"):
+                continue
+            seen.add(c)
+            out.append(h)
+            frontier.append((h, d + 1))
+    return out
+
+
+def main_match_in_unit(db, root_hir, enum_path):
+    """(match, owner body): the match over the enum with most arms in the function or in the private helpers it delegates to."""
+    best = None
+    for b in unit_bodies(db, root_hir):
+        for m in matches_on(b, enum_path):
+            if best is None or len(m["arms"]) > len(best[0]["arms"]):
+                best = (m, b)
+    return best if best is not None else (None, root_hir)
+
+
 class Arm:
     def __init__(self, arm):
         self.arm = arm
